@@ -54,7 +54,7 @@ def obligations(tier):
             prod = it.product(KINDS, KINDS, ('absent', 'int', 'str'), KINDS)
         for kj, ki, km, kp in prod:
             obs.append({'h': 'step', 'disp': disp, 'k': [kj, ki, km, kp]})
-        for first in ('echo', 'ctxm', 'vm', 'js', 'vjs', 'pos', 'nosuch', 'whoami', 'ping', 'boomctx', 'push'):
+        for first in ('echo', 'ctxm', 'vm', 'js', 'vjs', 'pos', 'nosuch', 'whoami', 'ping', 'boomctx', 'push', 'bad'):
             obs.append({'h': 'probe', 'disp': disp, 'first': first, '_budget': 90.0})
         for passing, passing2 in it.product(('pos', 'named'), repeat=2):
             obs.append({'h': 'disturb', 'disp': disp, 'passing': passing, 'passing2': passing2})
@@ -196,6 +196,15 @@ def _build_dispatcher(env, wire, disp):
                 self.items.append(x)
                 return list(self.items)
     d.registry.view(SV)
+
+    # a method whose return value has no JSON form: dispatch() raises (outside C01's premise) - but it must not leave anything behind
+    if is_async:
+        async def bad():
+            return {1, 2}
+    else:
+        def bad():
+            return {1, 2}
+    d.add(bad, name='bad')
     return d
 
 
@@ -307,11 +316,19 @@ def _step(env, ob, make_doc, probe=False):
         for dd in (d, fresh):
             for m, p in (('echo', [1]), ('ctxm', [1]), ('vm', [1]), ('js', {'a': 1}), ('js', {'a': 'x'}), ('nosuch', []), ('pos', [1, 2, 3]), ('ping', []), ('whoami', []), ('vjs', {'a': 1}), ('vjs', {'a': 'x'}), ('boomctx', [1]), ('push', [1])):
                 _dispatch(dd, ob['disp'], wire.encode({'jsonrpc': '2.0', 'id': 1, 'method': m, 'params': p}), Ctx())
+            try:
+                _dispatch(dd, ob['disp'], wire.encode({'jsonrpc': '2.0', 'id': 1, 'method': 'bad'}), Ctx())
+            except TypeError:
+                pass
         before = _fingerprint(d)
     doc = make_doc()
     ctx = Ctx()
     try:
         out = _dispatch(d, ob['disp'], wire.encode(doc), ctx)
+    except TypeError as e:
+        if ob.get('first') != 'bad':
+            raise Violation('raised:' + type(e).__name__, doc)
+        out = None               # tolerated: the method broke its side of the contract; what matters is what is left behind
     except Exception as e:
         raise Violation('raised:' + type(e).__name__, doc)
     with env.untraced():
@@ -339,11 +356,18 @@ def _step(env, ob, make_doc, probe=False):
     pdoc = {'jsonrpc': '2.0', 'id': env.int('probe.id'), 'method': pm, 'params': pp}
     if env.bool('probe.noparams'):
         del pdoc['params']
-    try:
-        a = _dispatch(d, ob['disp'], wire.encode(pdoc), Ctx())
-        b = _dispatch(fresh, ob['disp'], wire.encode(pdoc), Ctx())
-    except Exception as e:
-        raise Violation('probe-raised:' + type(e).__name__, pdoc)
+    def _probe(dd):
+        try:
+            return 'out', _dispatch(dd, ob['disp'], wire.encode(pdoc), Ctx())
+        except TypeError:
+            return 'TypeError', None         # only the method whose result has no JSON form; must then happen on BOTH dispatchers
+        except Exception as e:
+            raise Violation('probe-raised:' + type(e).__name__, pdoc)
+    (ka, a), (kb, b) = _probe(d), _probe(fresh)
+    if ka != kb:
+        raise Violation('probe-answer-depends-on-history', (doc, pdoc, ka, kb))
+    if ka == 'TypeError' and not (pm == 'bad'):
+        raise Violation('probe-raised:TypeError', pdoc)
     if (a is None) != (b is None) or (a is not None and (not same_json(_strip(wire.decode(a[0])), _strip(wire.decode(b[0]))) or a[1] != b[1])):
         raise Violation('probe-answer-depends-on-history', (doc, pdoc, a, b))
     if env.real:
@@ -379,7 +403,7 @@ def h_probe(ob):
     def run(env):
         def make_doc():
             m = ob['first']
-            params = {'a': 1} if m in ('js', 'vjs') else ([env.int('first.x')] if m not in ('nosuch', 'whoami', 'ping') else [])
+            params = {'a': 1} if m in ('js', 'vjs') else ([env.int('first.x')] if m not in ('nosuch', 'whoami', 'ping', 'bad') else [])
             return {'jsonrpc': '2.0', 'id': env.int('first.id'), 'method': m, 'params': params}
         return _step(env, ob, make_doc, probe=True)
 
